@@ -26,6 +26,7 @@ func init() {
 		p := c.P
 		hm := c.handlerModels()
 		checkMerge(c, "C06") // each push/pull entry gets its own claim (the timer closure keeps the claim it was given)
+		checkNodeCount(c, "C06") // k, min and max are computed from the cluster-size estimate
 		c.Assume("the logarithmic schedule itself (float64 log(n+1)/log(k+1)), time.Timer punctuality and suspicionTimeout's numeric value are not decided")
 
 		// ---- 1. Confirm: counted once per distinct confirmer, never beyond k, registered before returning
@@ -370,4 +371,88 @@ func hasTopArg(name, fn, arg string) bool {
 		}
 	}
 	return false
+}
+
+// checkNodeCount: the cluster-size estimate (numNodes) follows the member
+// list. The suspicion parameters (k, min, max), the retransmit limit and the
+// push/pull scaling are all computed from it; an estimate that keeps counting
+// reaped records makes a shrunken cluster wait for confirmations that can
+// never arrive.
+func checkNodeCount(c *Ctx, prop string) {
+	p := c.P
+	rule := "the cluster-size estimate follows the member list: every append to the list is counted (+1) on the same path, and after the reaper truncates the list the estimate is set to the truncated length"
+	c.Rule(rule)
+	// 1. appends (alive handler)
+	a := c.handlerModels()["alive"]
+	na := 0
+	for _, ex := range a.x.Exits {
+		if ex.Seen["APPEND"] == 0 {
+			continue
+		}
+		na++
+		c.Check(prop+"/node-count/append-counted", rule, ex.Pos, ex.Seen["ATOMICW:Memberlist.numNodes"] > 0, "exit at "+p.Pos(ex.Pos)+" appended a record to the member list without advancing the estimate")
+	}
+	c.Floor("exits of the alive handler that appended a record", na, 1)
+	// 2. truncations
+	nt := 0
+	for _, fn := range p.SortedFuncs() {
+		if !pinnedFuncs[fn.Name] || fn == a.fn || !c.G.Summary(fn)["W:Memberlist.nodes"] {
+			continue
+		}
+		x := c.flow(fn, map[string]string{})
+		for _, ex := range x.Exits {
+			if ex.Seen["W:Memberlist.nodes"] == 0 {
+				continue
+			}
+			// the list's final value on this path
+			var lastW, lastC *gea.Effect
+			for _, e := range x.Effects {
+				if !subCube(e.Cube, ex.Cube) {
+					continue
+				}
+				switch e.Class {
+				case "W:Memberlist.nodes":
+					lastW = e
+				case "ATOMICW:Memberlist.numNodes":
+					lastC = e
+				}
+			}
+			if lastW == nil {
+				continue
+			}
+			val := untok(lastW.Detail["val"])
+			hi := ""
+			if i := strings.Index(val, "["); i >= 0 && strings.HasSuffix(val, "]") {
+				if j := strings.Index(val[i:], ":"); j >= 0 {
+					hi = val[i+j+1 : len(val)-1]
+				}
+			}
+			if hi == "" {
+				continue // not a re-slice (appends are judged above)
+			}
+			nt++
+			got := ""
+			if lastC != nil {
+				got = untok(lastC.Detail["arg0"])
+				for _, conv := range []string{"uint32(", "int(", "uint64(", "int32("} {
+					if strings.HasPrefix(got, conv) && strings.HasSuffix(got, ")") {
+						got = got[len(conv) : len(got)-1]
+					}
+				}
+			}
+			ok := lastC != nil && (got == hi || got == "len("+val+")")
+			c.Check(prop+"/node-count/truncate-recounted/"+fn.Name, rule, ex.Pos, ok, "the member list is cut to ["+hi+"] entries but the estimate is set to "+map[bool]string{true: got, false: "(nothing)"}[lastC != nil]+": it keeps counting records that were reaped")
+		}
+	}
+	c.Floor("paths that truncate the member list", nt, 1)
+}
+
+// subCube: every atom of a that b also decides has the same value there.
+func subCube(a, b map[string]string) bool {
+	for k, v := range a {
+		if w, ok := b[k]; ok && w != v {
+			return false
+		}
+	}
+	return true
 }
